@@ -30,6 +30,8 @@ type Tokenizer struct {
 	mi        int
 	num       gen.Number
 	rn        rune
+	hi        rune // pending high surrogate of a \uXXXX escape
+	hiEnd     int  // len(tmp) right after its U+FFFD was appended
 	mode      string
 	nextMode  string
 }
@@ -65,6 +67,7 @@ func (t *Tokenizer) Parse(buf []byte, handler TokenHandler) (err error) {
 		t.tmp = t.tmp[:0]
 		t.starts = t.starts[:0]
 	}
+	t.hi = 0
 	t.noff = -1
 	t.line = 1
 	t.mode = valueMap
@@ -93,6 +96,7 @@ func (t *Tokenizer) Load(r io.Reader, handler TokenHandler) (err error) {
 		t.tmp = t.tmp[:0]
 		t.starts = t.starts[:0]
 	}
+	t.hi = 0
 	t.noff = -1
 	t.line = 1
 	t.mi = 0
@@ -400,6 +404,7 @@ func (t *Tokenizer) tokenizeBuffer(buf []byte, last bool) error {
 			t.mode = expSignMap
 			continue
 		case strQuote:
+			t.hi = 0
 			t.mode = t.nextMode
 			if t.nextMode == colonMap {
 				t.handler.Key(string(t.tmp))
@@ -454,8 +459,19 @@ func (t *Tokenizer) tokenizeBuffer(buf []byte, last bool) error {
 				if len(t.runeBytes) < 6 {
 					t.runeBytes = make([]byte, 6)
 				}
+				if 0xDC00 <= t.rn && t.rn <= 0xDFFF && t.hi != 0 && t.hiEnd == len(t.tmp) {
+					// a low surrogate directly after a high one: replace the
+					// U+FFFD written for the high half by the combined rune
+					t.tmp = t.tmp[:t.hiEnd-3]
+					t.rn = 0x10000 + (t.hi-0xD800)<<10 + (t.rn - 0xDC00)
+				}
+				t.hi = 0
 				n := utf8.EncodeRune(t.runeBytes, t.rn)
 				t.tmp = append(t.tmp, t.runeBytes[:n]...)
+				if 0xD800 <= t.rn && t.rn <= 0xDBFF {
+					t.hi = t.rn
+					t.hiEnd = len(t.tmp)
+				}
 				t.mode = stringMap
 			}
 			continue
